@@ -71,6 +71,9 @@ pub fn explore_choices<R>(bound: usize, mut run: impl FnMut(Chooser) -> (Chooser
 pub const NCR_MENU: [u32; 3] = [0, 1, 8];
 pub const ACMD41_MENU: [u32; 3] = [0, 1, 3];
 pub const TOKEN_DELAY_MENU: [u32; 3] = [0, 1, 200];
+/// busy after a data block of a write: the driver's write time-out is 50 000 polls
+pub const BUSY_WRITE_MENU: [u32; 4] = [0, 1, 64, 40_000];
+/// busy after stop-transmission / the stop token: only the next command's 10 000-poll wait applies
 pub const BUSY_MENU: [u32; 4] = [0, 1, 64, 9_000];
 
 #[derive(Clone, Debug, PartialEq)]
@@ -145,10 +148,15 @@ pub struct Card {
     pub wire: Vec<WireBlock>,
     /// raw (mosi, miso) stream for the protocol monitor
     pub trace: Option<Vec<(u8, u8)>>,
+    /// passive protocol monitor fed with every exchanged byte pair (never influences the card)
+    pub monitor: Option<Box<crate::spimon::Monitor>>,
     pub garbage_pos: usize,
     /// writes applied to memory: (block, data)
     pub writes: Vec<u32>,
     pub pre_erase: Option<u32>,
+    /// command indices of every complete frame the host sent (tracked even while the card is dead)
+    pub host_cmds: Vec<u8>,
+    host_frame: Vec<u8>,
 }
 
 pub fn mem_default(block: u32) -> [u8; 512] {
@@ -254,9 +262,12 @@ impl Card {
             miso_log: Vec::with_capacity(16500),
             wire: Vec::new(),
             trace: None,
+            monitor: None,
             garbage_pos: 0,
             writes: Vec::new(),
             pre_erase: None,
+            host_cmds: Vec::new(),
+            host_frame: Vec::new(),
         }
     }
 
@@ -341,7 +352,8 @@ impl Card {
     }
 
     fn busy_choice(&mut self, label: &'static str) {
-        self.busy = BUSY_MENU[self.chooser.pick(label, BUSY_MENU.len() as u8) as usize] as u64;
+        let menu = if label == "busy-after-write" { &BUSY_WRITE_MENU } else { &BUSY_MENU };
+        self.busy = menu[self.chooser.pick(label, menu.len() as u8) as usize] as u64;
     }
 
     fn command(&mut self, f: &[u8]) {
@@ -480,6 +492,14 @@ impl Card {
         if self.exchanges > self.horizon {
             panic!("HORIZON");
         }
+        // passive bookkeeping of host command frames (does not influence the card)
+        if !self.host_frame.is_empty() || (mosi & 0xC0 == 0x40 && matches!(self.rx, Rx::Idle | Rx::Cmd(_))) {
+            self.host_frame.push(mosi);
+            if self.host_frame.len() == 6 {
+                self.host_cmds.push(self.host_frame[0] & 0x3F);
+                self.host_frame.clear();
+            }
+        }
         let miso = self.exchange_inner(mosi, n);
         self.miso_log.push(miso);
         if self.miso_log.len() > 16384 {
@@ -487,6 +507,9 @@ impl Card {
         }
         if let Some(t) = self.trace.as_mut() {
             t.push((mosi, miso));
+        }
+        if let Some(m) = self.monitor.as_mut() {
+            m.feed(mosi, miso);
         }
         miso
     }
